@@ -15,9 +15,13 @@ subprocess.run(['git', '-C', '/repo', 'apply', os.path.join(d, 'patch.diff')], c
 caught, errors, lines = [], [], {}
 tmp = tempfile.mkdtemp(prefix='seedev_')
 try:
-    for p in PROPS:
-        r = subprocess.run([os.path.join(V, 'check'), p, 'quick'], capture_output=True, text=True,
-                           env=dict(os.environ, SA_EVIDENCE_DIR=tmp))
+    from concurrent.futures import ThreadPoolExecutor
+    def run(p):
+        return subprocess.run([os.path.join(V, 'check'), p, 'quick'], capture_output=True, text=True,
+                              env=dict(os.environ, SA_EVIDENCE_DIR=tmp))
+    with ThreadPoolExecutor(16) as ex:
+        results = list(ex.map(run, PROPS))
+    for p, r in zip(PROPS, results):
         f = [l for l in r.stdout.splitlines() if l.startswith('FINDING')]
         if r.returncode == 1:
             caught.append(p)
